@@ -197,7 +197,9 @@ static int w_enabled(int opi)
         }
         if (W.exotic && !is_simple_key(opi)) return 0;
         if (W.consumed == 0 && W.nkey == 0 && !W.seg2) return 1;
-        if (g_mode == MODE_C05 && W.consumed == 0 && W.nkey == 1 && W.nctr == 0 && W.ntweak == 0 && !W.seg2 && !W.exotic) return 1;   /* re-key before any data */
+        /* re-key before any data, also straight after a tweak change (which the new key must supersede) */
+        if (g_mode == MODE_C05 && W.consumed == 0 && W.nkey == 1 && W.nctr == 0 && W.ntweak <= 1 && !W.seg2 && !W.exotic) return 1;
+        if (g_mode == MODE_C06 && W.consumed == 0 && W.unkeyed_enc == 0 && W.nkey == 1 && W.nctr == 0 && W.ntweak == 1 && !W.seg2 && !W.exotic) return 1;
         if (g_mode == MODE_C06 && W.consumed > 0 && W.nreconf < 1 && !W.seg2) return 1;
         if (g_mode == MODE_C14 && W.nkey < 2 && W.consumed == 0) return 1;
         return 0;
@@ -377,6 +379,7 @@ static void w_apply(int opi, int check)
             W.keyed = o->type == T_KEY ? 1 : 2;
             if (o->type == T_TKEY || g_c == CK_MANTIS) memset(W.tweak, 0, 16);
             if (W.consumed > 0 || W.unkeyed_enc > 0) { W.defined = 0; ++W.nreconf; }
+            else if (g_mode == MODE_C06 && W.nkey >= 1) ++W.nreconf;    /* re-key before data: followed by one data call, like the other reconfigurations of this mode */
             W.ksoff = g_bs; W.ksvalid = 0;
             ++W.nkey; if (W.keyidx < 0) W.keyidx = opi;
         }
